@@ -26,6 +26,15 @@ cylindrical kernel, whole periods, exact grid nodes, inducing points, the bounda
 antipode).  In every other family the real kernels are evaluated on the geometry DataGeo of the spec (origin and unit rows, the
 last rows of x1 = the first rows of x2); the stub keeps pairwise distinct labels there.
 
+Settings and mode (LazyKernel.tla "settings and mode"): what a kernel means depends on train / eval mode and on the settings
+sgpr_diagonal_correction and use_toeplitz (lazily_evaluate_kernels is crossed by every relation anyway).  The geo runs enumerate (aligned
+broadcast pattern x geometry x environment) under EnvCover (the default and every PAIR of setting values; every environment in the thorough
+tier's geom run) and EnvVisible; the stub's forward reads the three components when it runs, so its labels carry the environment (exact), and
+EVERY zoo kernel evaluates every zoo relation under every enumerated environment (mode set on the kernel object, settings around both sides of
+the relation; generic rows and the first geometry).  A kernel that is only defined for x1 == x2 in an environment (the SGPR kernel in train
+mode) gets the diagonal relations there.  Diagonal class: every composite / multi-output structure of the zoo has a member whose diagonal
+k(x, x) VARIES over the points (ZooDiagCover on CONSTANT Zoo = the zoo's declared table; diag_probe checks the declaration on the real kernel).
+
 History dimension (KernelPure.tla, checks/c06_pure.py): a kernel is a mutable object and every derivation (kernel[idx],
 expand_batch, K[idx], K.mT, repeat, unsqueeze, diagonal, evaluate_kernel) copies it and assigns on the copy.  TLC checks
 Pure / DerivedAgree on a heap model of the copy discipline for plain, Scale, Additive, Product and nested compositions
@@ -40,7 +49,8 @@ Cell signatures: C06/<operation>/<t1|mt>/<class>[/only:<kernel>] with the class 
 C06/zoo/<relation>/<kernel | any-kernel>[/special-rows] ('any-kernel' when the plain RBF kernel fails the relation on the same
 pattern and geometry; 'special-rows' when the relation holds for this kernel and pattern on generic data and fails on a geometry),
 C06/pure/<operation>/<structure | t1 | mt>[/only:<kernel>] (the original object changed), C06/pure-derived/<operation>/<structure>,
-C06/diag-layout/<kernel>.
+C06/diag-layout/<kernel>; a zoo relation that holds in the environment the kernel is built in and fails in another one gets the suffix
+/env:<mode>,sgpr_diagonal_correction=<on|off>,use_toeplitz=<on|off>.
 
 Development switches (never needed for a normal run): VERIF_C06_ONLY=<regex over TLC run names>, VERIF_C06_REUSE=1 (reuse
 the dumps of an earlier --keep-build run), VERIF_C06_DUMPFAIL=<file>, VERIF_C06_DRIFTS=<n>, VERIF_C06_TLC_PAR=<n>."""
@@ -80,6 +90,12 @@ FAMS_U = ["rs", "cs", "ss", "ix", "lx", "el"]
 # for N1 = 2, N2 = 3 (TLC checks it), and the larger family of the thorough tier
 GEOS_COVER = [((0, 3), (2, 0, 3)), ((1, 2), (0, 0, 4)), ((1, 1), (1, 3, 0))]
 GEOS_MORE = [((0, 0), (0, 3, 3)), ((2, 3), (2, 2, 1)), ((3, 3), (3, 3, 3)), ((3, 0), (4, 3, 1))]
+# environments <<mode, sgpr_diagonal_correction, use_toeplitz>> (LazyKernel.tla "settings and mode"): the default, a family that
+# contains every PAIR of setting values (TLC checks EnvCover), and all of them
+ENV_DEFAULT = ("train", "on", "on")
+ENVS_COVER = [ENV_DEFAULT, ("train", "off", "off"), ("eval", "on", "off"), ("eval", "off", "on")]
+ENVS_ALL = [(m, c, t) for m in ("train", "eval") for c in ("on", "off") for t in ("on", "off")]
+SENS_ALL = ("mode", "corr", "toep")
 GEO_PATTERNS = '{<<p, "geo">> : p \\in BroadcastablePatterns({<<>>, <<2>>, <<2, 1>>}, {1, 2}, %d)}'
 
 
@@ -88,12 +104,12 @@ def plan(thorough):
     its initial states are (pattern, family, chunk) triples, which TLC's workers explore in parallel."""
     R = []
 
-    def run(name, n1, n2, t, jobs, tails=((1, 1),), ad=(), steps=1, nchunks=1, inv=("Agree", "SizeIsDenseShape"), jobexpr=None, split=1, workers=6, geos=()):
+    def run(name, n1, n2, t, jobs, tails=((1, 1),), ad=(), steps=1, nchunks=1, inv=("Agree", "SizeIsDenseShape"), jobexpr=None, split=1, workers=6, geos=(), envs=()):
         # `split` JVMs share the chunks of one run
         nch = max(nchunks, split)
         for s in range(split):
             R.append(dict(name=name + ("_%d" % s if split > 1 else ""), n1=n1, n2=n2, t=t, tails=tails, ad=ad, jobs=jobs, jobexpr=jobexpr, steps=steps, nchunks=nch,
-                          chunks=[c for c in range(nch) if c % split == s], inv=list(inv), pad=2 if thorough else 1, workers=workers, geos=geos if geos == "all" else list(geos)))
+                          chunks=[c for c in range(nch) if c % split == s], inv=list(inv), pad=2 if thorough else 1, workers=workers, geos=geos if geos == "all" else list(geos), envs=list(envs) or [ENV_DEFAULT]))
 
     U = ((), (), ())
     allp = [U] + P_RANK1 + P_RANK2
@@ -136,13 +152,16 @@ def plan(thorough):
         jobexpr='{<<p, "none">> : p \\in BroadcastablePatterns({<<>>, <<2>>, <<2, 1>>}, {1, 2}, %d)}' % (2 if thorough else 1))
     # the data lattice: every broadcast pattern x geometry with the relations as actions (t = 1 and t = 2 stubs; the zoo section takes
     # its (pattern, geometry) pairs from the first run)
+    # ... x environment on the aligned patterns (EnvPattern): the pairwise covering family (the zoo section takes its environments from the
+    # first run as well), every environment in the thorough tier's "geom" run
     ginv = ("GeoAgree", "SizeIsDenseShape", "GeoCover", "StackIsBlock")
-    run("geo", 2, 3, 1, None, inv=ginv, workers=4, geos=GEOS_COVER, jobexpr=GEO_PATTERNS % (2 if thorough else 1))
-    run("geo2", 2, 3, 2, None, inv=ginv, workers=4, geos=GEOS_COVER, jobexpr=GEO_PATTERNS % 1)
+    einv = ("EnvCover", "EnvVisible", "ZooDiagCover")
+    run("geo", 2, 3, 1, None, inv=ginv + einv, workers=4, geos=GEOS_COVER, jobexpr=GEO_PATTERNS % (2 if thorough else 1), envs=ENVS_COVER)
+    run("geo2", 2, 3, 2, None, inv=ginv + einv, workers=4, geos=GEOS_COVER, jobexpr=GEO_PATTERNS % 1, envs=ENVS_COVER)
     if thorough:
         # more geometries on the patterns with data batch rank <= 1 (stub and zoo), and EVERY assignment of points to rows (n1 = n2 = 2),
         # unbatched and with an aligned batch (the stub only)
-        run("geom", 2, 3, 1, None, inv=ginv[:2] + ginv[3:], workers=4, geos=GEOS_MORE, jobexpr=GEO_PATTERNS % 1)
+        run("geom", 2, 3, 1, None, inv=ginv[:2] + ginv[3:] + einv[:2], workers=4, geos=GEOS_MORE, jobexpr=GEO_PATTERNS % 1, envs=ENVS_ALL)
         run("geoall", 2, 2, 1, fams([U, P_RANK1[0]], ["geo"]), inv=ginv[:2] + ginv[3:], workers=8, geos="all")
     return R
 
@@ -152,14 +171,24 @@ def write_mc(wd, r):
     mod = "MC_LK_" + r["name"]
     jobs = r["jobexpr"] or "{" + ", ".join("<<%s, %s>>" % (tla(p), tla(f)) for p, f in r["jobs"]) + "}"
     geos = "AllGeos(N1, N2)" if r.get("geos") == "all" else "{" + ", ".join(tla(g) for g in r.get("geos") or []) + "}"
+    isgeo = bool(r.get("geos"))
+    envs = "{" + ", ".join(tla(tuple(e)) for e in r.get("envs") or [ENV_DEFAULT]) + "}"
+    sens = "{" + ", ".join(tla(x) for x in (SENS_ALL if isgeo else ())) + "}"
+    zoo = "{" + ", ".join(tla(z) for z in (zoo_table() if isgeo else ())) + "}"
     with open(os.path.join(wd, mod + ".tla"), "w") as f:
-        f.write("---- MODULE %s ----\nEXTENDS LazyKernel\nTailsDef == %s\nADDef == %s\nJobsDef == %s\nChunkSetDef == {%s}\nGeosDef == %s\n====\n" % (
-            mod, tla(r["tails"]), tla(r["ad"]), jobs, ", ".join(str(c) for c in r["chunks"]), geos))
+        f.write("---- MODULE %s ----\nEXTENDS LazyKernel\nTailsDef == %s\nADDef == %s\nJobsDef == %s\nChunkSetDef == {%s}\nGeosDef == %s\nEnvsDef == %s\nSensDef == %s\nZooDef == %s\n====\n" % (
+            mod, tla(r["tails"]), tla(r["ad"]), jobs, ", ".join(str(c) for c in r["chunks"]), geos, envs, sens, zoo))
     cfg = os.path.join(wd, mod + ".cfg")
-    tlc.write_cfg(cfg, spec="Spec", constants={"N1": r["n1"], "N2": r["n2"], "T": r["t"], "Tails": "<- TailsDef", "AD": "<- ADDef", "Jobs": "<- JobsDef", "Geos": "<- GeosDef", "Repairs": set(REPAIRS_IN_TREE),
+    tlc.write_cfg(cfg, spec="Spec", constants={"N1": r["n1"], "N2": r["n2"], "T": r["t"], "Tails": "<- TailsDef", "AD": "<- ADDef", "Jobs": "<- JobsDef", "Geos": "<- GeosDef", "Envs": "<- EnvsDef", "Sens": "<- SensDef", "Zoo": "<- ZooDef", "Repairs": set(REPAIRS_IN_TREE),
                                                "MaxSteps": r["steps"], "Pad": r["pad"], "NChunks": r["nchunks"], "ChunkSet": "<- ChunkSetDef"},
                   invariants=r["inv"])
     return os.path.join(wd, mod + ".tla"), cfg
+
+
+def zoo_table():
+    """CONSTANT Zoo of LazyKernel.tla: <<name, structure, class of the diagonal over the points, outputs per input>> as declared by the zoo"""
+    from checks import c06_kernels as kz
+    return [(z.name, z.struct, "varying" if z.dvar else "constant", z.t) for z in kz.zoo()]
 
 
 # ------------------------------------------------------------------------------------------------------------------
@@ -235,6 +264,65 @@ def kinds(idx):
             k = "..."
         out.append(k)
     return "x".join(out) or "()"
+
+
+# ------------------------------------------------------------------------------------------------------------------
+# environments
+_ENV = [None]  # the environment of the case being replayed (None = the default: objects as built, default settings)
+
+
+def env_code(env, sens=SENS_ALL):
+    """EnvCode of LazyKernel.tla"""
+    if not env:
+        return 0
+    return (1 if "mode" in sens and env[0] == "eval" else 0) + (2 if "corr" in sens and env[1] == "off" else 0) + (4 if "toep" in sens and env[2] == "off" else 0)
+
+
+def env_name(env):
+    return "%s,sgpr_diagonal_correction=%s,use_toeplitz=%s" % tuple(env) if env else "default"
+
+
+class env_settings(object):
+    """the global settings of an environment (the mode belongs to the kernel object: setup / zoo_env set it)"""
+
+    def __init__(self, env):
+        self.env = [str(x) for x in env] if env else None
+
+    def __enter__(self):
+        import gpytorch
+        self.prev = _ENV[0]
+        _ENV[0] = self.env
+        self.cms = []
+        if self.env:
+            self.cms = [gpytorch.settings.sgpr_diagonal_correction(self.env[1] == "on"), gpytorch.settings.use_toeplitz(self.env[2] == "on")]
+        for c in self.cms:
+            c.__enter__()
+        return self
+
+    def __exit__(self, *a):
+        for c in reversed(self.cms):
+            c.__exit__(None, None, None)
+        _ENV[0] = self.prev
+        return False
+
+
+class zoo_env(env_settings):
+    """... and the mode of the zoo kernel k for the duration of the block (restored afterwards)"""
+
+    def __init__(self, k, env):
+        env_settings.__init__(self, env)
+        self.k = k
+
+    def __enter__(self):
+        env_settings.__enter__(self)
+        self.was = self.k.training
+        if self.env:
+            self.k.train(self.env[0] == "train")
+        return self
+
+    def __exit__(self, *a):
+        self.k.train(self.was)
+        return env_settings.__exit__(self, *a)
 
 
 # ------------------------------------------------------------------------------------------------------------------
@@ -315,7 +403,7 @@ def label_dense(torch, cfg, pat, fam=None, geo=None, which="12"):
         for s in shape:
             n *= s
         return torch.arange(n, dtype=torch.float64).reshape(tuple(shape))
-    p = sum(iota(PB).reshape(*PB, 1, 1) * (8 ** i) for i in range(len(cfg["tails"])))
+    p = sum(iota(PB).reshape(*PB, 1, 1) * (8 ** i) for i in range(len(cfg["tails"]))) + (64 * env_code(_ENV[0]) if fam == "geo" else 0)
     u = lu.repeat_interleave(t, -1).unsqueeze(-1)
     v = lv.repeat_interleave(t, -1).unsqueeze(-2)
     a = torch.arange(t, dtype=torch.float64).repeat(n1).unsqueeze(-1)
@@ -329,7 +417,7 @@ def real_names(cfg, thorough):
 
 
 def cache_key(cfg, pat, kname, which, fam, geo):
-    return (cfg["name"], tuple(map(tuple, pat)), kname, which, repr(geo) if (fam == "geo" or kname != "stub") else None)
+    return (cfg["name"], tuple(map(tuple, pat)), kname, which, repr(geo) if (fam == "geo" or kname != "stub") else None, repr(_ENV[0]) if fam == "geo" else None)
 
 
 def setup(cfg, pat, kname, square=False, fam=None, geo=None, which="12"):
@@ -349,7 +437,9 @@ def setup(cfg, pat, kname, square=False, fam=None, geo=None, which="12"):
     ad = tuple(cfg["ad"]) or None
     n1, n2 = cfg["n1"], cfg["n2"]
     if kname == "stub":
-        k = kz.LabelKernel(t=cfg["t"], tails=cfg["tails"], batch_shape=torch.Size(PB), active_dims=ad)
+        k = kz.LabelKernel(t=cfg["t"], tails=cfg["tails"], batch_shape=torch.Size(PB), active_dims=ad, sens=SENS_ALL if fam == "geo" else ())
+        if fam == "geo" and _ENV[0]:
+            k.train(_ENV[0][0] == "train")
         lu, lv = label_rows(torch, cfg, pat, fam, geo, which)
         x1, x2 = kz.label_inputs_from(lu, ad[0] if ad else 0), kz.label_inputs_from(lv, ad[0] if ad else 0)
         if which != "12":
@@ -477,6 +567,8 @@ def describe(cfg, pat, hist, fam=None, geo=None):
             s = s[:-1] + REL_OPS[h["op"]]
         else:
             s += ".%s(%s)" % (h["op"], ", ".join(str(int(x)) for x in h["arg"]))
+    if fam == "geo" and _ENV[0] and tuple(_ENV[0]) != ENV_DEFAULT:
+        s += " {under %s}" % env_name(_ENV[0])
     return s
 
 
@@ -503,8 +595,18 @@ def cell_of(cfg, pat, hist):
     return "C06/%s/%s/%s" % (h["op"], tk, cls if cls != "none" else "plain")
 
 
-def replay_state(torch, cfg, pat, hist, knames, thorough, fam=None, geo=None):
-    """-> list of result dicts (one per kernel)"""
+def replay_state(torch, cfg, pat, hist, knames, thorough, fam=None, geo=None, env=None):
+    """-> list of result dicts (one per kernel); family 'geo': under the environment env"""
+    env = [str(x) for x in env] if (env and fam == "geo") else None
+    with env_settings(env):
+        res = _replay_state(torch, cfg, pat, hist, knames, thorough, fam, geo)
+    for r in res:
+        if env and "case" in r:
+            r["case"]["env"] = env
+    return res
+
+
+def _replay_state(torch, cfg, pat, hist, knames, thorough, fam=None, geo=None):
     out = []
     last = hist[-1]
     desc = describe(cfg, pat, hist, fam, geo)
@@ -537,7 +639,7 @@ def replay_state(torch, cfg, pat, hist, knames, thorough, fam=None, geo=None):
     if oerr != bool(last["eerr"]) or (not oerr and (list(ref.shape) != list(last["eshape"]) or [int(x) for x in ref.reshape(-1)] != list(last["edata"]))):
         return [dict(machinery="LazyKernel.tla / PyIndex.tla disagree with torch on the label tensor for %s: spec err=%s shape=%s, torch err=%s shape=%s" % (
             desc, last["eerr"], list(last["eshape"]), oerr, None if oerr else list(ref.shape)))]
-    key0 = [cfg["t"], cfg["n1"], cfg["n2"], list(cfg["tails"]), list(cfg["ad"]), [list(x) for x in pat], [[h["op"], h["idx"], list(h["arg"])] for h in hist]] + ([geo] if fam == "geo" else [])
+    key0 = [cfg["t"], cfg["n1"], cfg["n2"], list(cfg["tails"]), list(cfg["ad"]), [list(x) for x in pat], [[h["op"], h["idx"], list(h["arg"])] for h in hist]] + ([geo, env_name(_ENV[0])] if fam == "geo" else [])
     if oerr:
         return [dict(key=key0, ok=True, nontrivial=False, n=1)]
     nontrivial = ref.numel() > 0 and (last["op"] != "getitem" or ref.numel() < L.numel() or list(ref.shape) != list(L.shape))
@@ -616,7 +718,7 @@ def replay_rel(torch, cfg, pat, hist, desc, fam, geo):
         return [dict(machinery="LazyKernel.tla disagrees with torch on the label tensor for %s: spec err=%s shape=%s, torch shape=%s" % (desc, last["eerr"], list(last["eshape"]), list(ref.shape)))]
     if op == "stack" and not torch.equal(ref, label_dense(torch, cfg, pat, fam, geo)):
         return [dict(machinery="the block of the stacked label tensor is not the label tensor of kernel(x1, x2) for %s" % desc)]
-    key0 = [cfg["t"], cfg["n1"], cfg["n2"], list(cfg["tails"]), list(cfg["ad"]), [list(x) for x in pat], [[op, [], []]], geo]
+    key0 = [cfg["t"], cfg["n1"], cfg["n2"], list(cfg["tails"]), list(cfg["ad"]), [list(x) for x in pat], [[op, [], []]], geo, env_name(_ENV[0])]
     su = setup(cfg, pat, "stub", False, fam, geo, which)
     k, xa, _, K, D = su
     tk = "t1" if t == 1 else "mt"
@@ -794,7 +896,7 @@ def _state_worker(item):
                     m = 2 if not thorough else 4
                     m = min(m, len(real))  # m kernels, evenly spaced in the list from a case-dependent start
                     names += [real[(hsh + (j * len(real)) // m) % len(real)] for j in range(m)]
-        res = replay_state(torch, cfg, pat, hist, list(dict.fromkeys(names)), thorough, fam, geo)
+        res = replay_state(torch, cfg, pat, hist, list(dict.fromkeys(names)), thorough, fam, geo, env=to_py(st["env"]))
         for r in res:
             r["br"] = [str(x) for x in last["br"]] + [str(last["path"])]
             r["predicted"] = bool(last["agree"]) or bool(last["eerr"])
@@ -825,6 +927,22 @@ def symmetry_probe(torch, z, k, x1, x2, E, pat, desc):
     return out
 
 
+def diag_probe(torch, z, k, x1, Exx, pat, desc):
+    """Vacuity guard of the declared diagonal class (CONSTANT Zoo of LazyKernel.tla, ZooDiagCover): a kernel declared 'varying' has a diagonal
+    k(x, x) that differs between the points of the generic data, output by output."""
+    if not z.dvar or any(tuple(x) for x in pat):
+        return []
+    if z.struct == "inducing":
+        import gpytorch
+        with gpytorch.settings.lazily_evaluate_kernels(False), gpytorch.settings.sgpr_diagonal_correction(False):
+            Exx = dense_of(k(x1, x1))
+    d = Exx.diagonal(dim1=-1, dim2=-2).reshape(-1, z.t)
+    spread = float(((d.max(0).values - d.min(0).values) / d.abs().max().clamp_min(1e-300)).max())
+    if spread < 1e-3:
+        return [dict(key=["zoo", z.name, "probe-diag"], ok=True, nontrivial=False, vacuous="%s: declared to have a diagonal that varies over the points, but k(x, x) is constant (relative spread %.1e)" % (desc, spread))]
+    return [dict(key=["zoo", z.name, "probe-diag"], ok=True, nontrivial=False)]
+
+
 def _zoo_worker(item):
     import gpytorch
     from checks import c06_kernels as kz
@@ -833,6 +951,7 @@ def _zoo_worker(item):
     z = kz.by_name(item["kernel"])
     out = []
     t = z.t
+    as_built = ("eval" if z.eval_mode else "train", "on", "on")
     n1, n2 = 2, 3  # n1 equals the parameter batch size 2 on purpose (shape heuristics must not confuse a batch with a matrix axis)
     for ip, pat in enumerate(item["pats"]):
         PB, D1, D2 = [tuple(x) for x in pat]
@@ -848,159 +967,185 @@ def _zoo_worker(item):
             if not okb:
                 raise core.Machinery("cannot construct %s with batch %s active_dims %s: %s" % (z.name, PB, ad, k))
             fail0 = set()  # relations that fail on generic data (the first geometry, None) for this kernel, pattern, active_dims
-            for geo in geos:
-                n1, n2 = (len(geo[0]), len(geo[1])) if geo else (2, 3)
-                if geo:
-                    # the points of the geometry realised in the input space of this kernel (equal ids = equal rows, also across x1 / x2)
-                    okg, xx = core.guarded(lambda: (kz.geo_inputs(z, k, ad, D1, list(geo[0]), sd + 1), kz.geo_inputs(z, k, ad, D2, list(geo[1]), sd + 1)))
-                    if not okg:
-                        raise core.Machinery("cannot realise the geometry %s for %s: %s" % (geo, z.name, xx))
-                    x1, x2 = xx
-                else:
-                    x1, x2 = kz.inputs(z, D1, n1, sd + 1), kz.inputs(z, D2, n2, sd + 2)
-                desc = "%s param-batch=%s x1:%s x2:%s%s%s" % (z.name, list(PB), list(D1) + [n1, 3], list(D2) + [n2, 3], " active_dims=%s" % list(ad) if ad else "",
-                                                              " geometry %s" % show_geo(geo) if geo else "")
-                gk_ = [int(i) for i in geo[0]] + [-1] + [int(i) for i in geo[1]] if geo else []
-                B = bshape(PB, D1, D2)
-                bp = "unbatched" if not B else ("aligned" if D1 == D2 == PB else "broadcast(%s)" % ",".join(n for n, s in (("param", PB), ("x1", D1), ("x2", D2)) if s != B))
-                with gpytorch.settings.lazily_evaluate_kernels(False):
-                    ok, E = core.guarded(lambda: dense_of(k(x1, x2)))
-                    ok2, Exx = core.guarded(lambda: dense_of(k(x1, x1)))
-                if not ok or not ok2:
-                    out.append(dict(key=["zoo", z.name, pat, use_ad, gk_, "not-evaluable"], ok=True, nontrivial=False, skipped="%s: eager evaluation raises (%s): outside the kernel's domain, not decided here" % (desc, E if not ok else Exx)))
-                    continue
-                fp0 = cp.fingerprint(torch, k)
-                if item.get("probe") and not use_ad and not geo:
-                    out.extend(symmetry_probe(torch, z, k, x1, x2, E, pat, desc))
-
-                def rel(name, fn, want, nontrivial=True):
-                    r = dict(key=["zoo", z.name, [list(x) for x in pat], use_ad, gk_, name], ok=True, nontrivial=nontrivial)
-                    okf, got = core.guarded(fn)
-                    # a relation that fails for the plain RBF kernel on the same pattern and geometry is not specific to this kernel; one that
-                    # holds for this kernel on generic data and fails on a geometry is decided by the special rows
-                    cell = "C06/zoo/%s/%s" % (name, "any-kernel" if name in generic_fail(pat, use_ad, item["seed"], geo) else z.name)
-                    if geo and geos[0] is None and name not in fail0:
-                        cell += "/special-rows"
-                    if not okf:
-                        r.update(ok=False, sig=cell, detail="%s [%s]: %s raised %s" % (desc, bp, name, got))
+            envs = [None] + [list(e) for e in ((item["envs_by_pat"][ip] if item.get("envs_by_pat") else item.get("envs")) or []) if e and tuple(e) != as_built]
+            faildef = set()  # (geometry, relation) that fail in the environment the kernel is built in
+            # (every geometry in the environment the kernel is built in; generic rows and the first geometry in the others)
+            for env, geo in [(e, g) for e in envs for g in (geos if e is None else geos[:2])]:
+                with zoo_env(k, env):
+                    n1, n2 = (len(geo[0]), len(geo[1])) if geo else (2, 3)
+                    if geo:
+                        # the points of the geometry realised in the input space of this kernel (equal ids = equal rows, also across x1 / x2)
+                        okg, xx = core.guarded(lambda: (kz.geo_inputs(z, k, ad, D1, list(geo[0]), sd + 1), kz.geo_inputs(z, k, ad, D2, list(geo[1]), sd + 1)))
+                        if not okg:
+                            raise core.Machinery("cannot realise the geometry %s for %s: %s" % (geo, z.name, xx))
+                        x1, x2 = xx
                     else:
-                        okc, kind, msg = compare(torch, got, want, exact=False, tol=TOL_CUSP if (geo and z.cusp) else TOL)
-                        if not okc:
-                            r.update(ok=False, sig=cell, detail="%s [%s]: %s (%s): %s" % (desc, bp, name, kind, msg))
-                    if not r["ok"]:
-                        r["case"] = dict(kind="zoo", kernel=z.name, pats=[[list(x) for x in pat]], geos=[None, geo] if geo else [None], seed=item["seed"])
-                        if not geo:
-                            fail0.add(name)
-                    elif name == "lazy-vs-eager" and not use_ad:
-                        r["sample"] = dict(case=desc, relation=name)
-                    out.append(r)
-
-                def lazy(f):
-                    def g():
-                        with gpytorch.settings.lazily_evaluate_kernels(True):
-                            return dense_of(f())
-                    return g
-                rel("lazy-vs-eager", lazy(lambda: k(x1, x2)), E)
-                rel("lazy-shape", lambda: torch.zeros(lazy_shape(k, x1, x2)), torch.zeros(E.shape), nontrivial=bool(B))
-                with gpytorch.settings.lazily_evaluate_kernels(False):
-                    ok21, E21 = core.guarded(lambda: dense_of(k(x2, x1)))
-                if not ok21:
-                    out.append(dict(key=["zoo", z.name, pat, use_ad, gk_, "swap-not-evaluable"], ok=True, nontrivial=False,
-                                    skipped="%s: eager evaluation of kernel(x2, x1) raises (%s) although kernel(x1, x2) works: transposition not decided" % (desc, E21)))
-                elif z.sym:
-                    rel("transpose", lambda: E21.mT, E)
-                    rel("lazy-mT", lazy(lambda: k(x1, x2).mT), E.mT)
-                if z.diag:
-                    dref = Exx.diagonal(dim1=-1, dim2=-2)
-                    for lz in (True, False):
-                        def dg(lz=lz):
-                            with gpytorch.settings.lazily_evaluate_kernels(lz):
-                                return dense_of(k(x1, x1, diag=True))
-                        rel("diag=True" if lz else "diag=True(eager)", dg, dref)
-
-                    def kd():
-                        with gpytorch.settings.lazily_evaluate_kernels(True):
-                            return k(x1, x1).diagonal()
-                    rel("K.diagonal()", kd, dref)
-                if z.stack:
-                    xs = torch.cat([x1.expand(*B, n1, x1.shape[-1]), x2.expand(*B, n2, x2.shape[-1])], -2)
-                    for lz in (True, False):
-                        def st(lz=lz):
-                            with gpytorch.settings.lazily_evaluate_kernels(lz):
-                                S = k(xs, xs)
-                                return dense_of(S[..., : n1 * t, n1 * t:]) if lz else dense_of(S)[..., : n1 * t, n1 * t:]
-                        rel("stacked-block" if lz else "stacked-block(eager)", st, E)
-                    if z.diag and geo:
-                        # every row of the geometry on one diagonal
-                        with gpytorch.settings.lazily_evaluate_kernels(False):
-                            okS, Ess = core.guarded(lambda: dense_of(k(xs, xs)))
-                        if okS:
-                            for lz in (True, False):
-                                def dgs(lz=lz):
-                                    with gpytorch.settings.lazily_evaluate_kernels(lz):
-                                        return dense_of(k(xs, xs, diag=True))
-                                rel("diag=True(stacked)" if lz else "diag=True(stacked,eager)", dgs, Ess.diagonal(dim1=-1, dim2=-2))
-
-                            def kds():
-                                with gpytorch.settings.lazily_evaluate_kernels(True):
-                                    return k(xs, xs).diagonal()
-                            rel("K.diagonal()(stacked)", kds, Ess.diagonal(dim1=-1, dim2=-2))
-                # slices WITHOUT an explicit stop on the other axis (the default stop is the size of that axis)
-                rel("lazy-rows", lazy(lambda: k(x1, x2)[..., 0:t, :]), E[..., 0:t, :])
-                rel("lazy-cols", lazy(lambda: k(x1, x2)[..., :, t:]), E[..., :, t:])
-                # derived objects that own a NEW kernel object: a batch index on the lazy tensor, kernel[i]; the value of K[i] is judged
-                # where the parameter batch is aligned with the output batch (the unaligned forms are classes of LazyKernel.tla)
-                if B:
-                    with gpytorch.settings.lazily_evaluate_kernels(True):
-                        Kb = k(x1, x2)  # created before the derivation, evaluated after it
-                    if len(PB) in (0, len(B)):
-                        rel("lazy-batch-int", lazy(lambda: Kb[B[0] - 1]), E[B[0] - 1])
-                        rel("lazy-batch-tensor", lazy(lambda: Kb[torch.tensor([B[0] - 1, 0])]), E[torch.tensor([B[0] - 1, 0])])
-                    else:
-                        core.guarded(lambda: Kb[B[0] - 1])
-                    if PB:
-                        core.guarded(lambda: k[PB[0] - 1])
-                        core.guarded(lambda: k.expand_batch(torch.Size((2,) + PB)))
-                    rel("pure(K.to_dense() after K[i])", lambda: dense_of(Kb), E)
-                    if len(PB) in (0, len(B)):
-                        rel("pure(K[0] after K[i])", lazy(lambda: Kb[0]), E[0])
-                # ... and after everything above (lazy tensors, transposes, diagonals, slices, batch indices): the kernel object is what
-                # it was and evaluates to the same matrix
-                def again():
+                        x1, x2 = kz.inputs(z, D1, n1, sd + 1), kz.inputs(z, D2, n2, sd + 2)
+                    desc = "%s param-batch=%s x1:%s x2:%s%s%s" % (z.name, list(PB), list(D1) + [n1, 3], list(D2) + [n2, 3], " active_dims=%s" % list(ad) if ad else "",
+                                                                  " geometry %s" % show_geo(geo) if geo else "") + (" {under %s}" % env_name(env) if env else "")
+                    gk_ = ([int(i) for i in geo[0]] + [-1] + [int(i) for i in geo[1]] if geo else []) + (["env:" + env_name(env)] if env else [])
+                    B = bshape(PB, D1, D2)
+                    bp = "unbatched" if not B else ("aligned" if D1 == D2 == PB else "broadcast(%s)" % ",".join(n for n, s in (("param", PB), ("x1", D1), ("x2", D2)) if s != B))
                     with gpytorch.settings.lazily_evaluate_kernels(False):
-                        return dense_of(k(x1, x2))
-                rel("pure(kernel(x1,x2) again)", again, E)
-                d1 = cp.fp_diff(torch, fp0, cp.fingerprint(torch, k))
+                        ok, E = core.guarded(lambda: dense_of(k(x1, x2)))
+                        ok2, Exx = core.guarded(lambda: dense_of(k(x1, x1)))
+                    if not ok or not ok2:
+                        out.append(dict(key=["zoo", z.name, pat, use_ad, gk_, "not-evaluable"], ok=True, nontrivial=False, skipped="%s: eager evaluation raises (%s): outside the kernel's domain, not decided here" % (desc, E if not ok else Exx)))
+                        if env and ok2 and z.diag:
+                            # a kernel that is defined for x1 == x2 only in this environment (the SGPR kernel in train mode): the diagonal relations
+                            dref = Exx.diagonal(dim1=-1, dim2=-2)
+                            for nm, lzy, fn in (("diag=True", True, lambda: dense_of(k(x1, x1, diag=True))), ("diag=True(eager)", False, lambda: dense_of(k(x1, x1, diag=True))),
+                                                ("K.diagonal()", True, lambda: k(x1, x1).diagonal())):
+                                with gpytorch.settings.lazily_evaluate_kernels(lzy):
+                                    okf, got = core.guarded(fn)
+                                r = dict(key=["zoo", z.name, [list(x) for x in pat], use_ad, gk_, nm], ok=True, nontrivial=True)
+                                okc, msg = (False, "raised %s" % got) if not okf else compare(torch, got, dref, exact=False, tol=TOL_CUSP if (geo and z.cusp) else TOL)[::2]
+                                if not okc:
+                                    r.update(ok=False, sig="C06/zoo/%s/%s/env:%s" % (nm, z.name, env_name(env)), detail="%s [%s]: %s: %s" % (desc, bp, nm, msg),
+                                             case=dict(kind="zoo", kernel=z.name, pats=[[list(x) for x in pat]], geos=[None, geo] if geo else [None], envs=[env], seed=item["seed"]))
+                                out.append(r)
+                        continue
+                    fp0 = cp.fingerprint(torch, k)
+                    if item.get("probe") and not use_ad and not geo and not env:
+                        out.extend(symmetry_probe(torch, z, k, x1, x2, E, pat, desc))
+                        out.extend(diag_probe(torch, z, k, x1, Exx, pat, desc))
 
-                def fp_same():
-                    if d1:
-                        raise RuntimeError("the kernel object changed: " + d1)
-                    return torch.zeros(1)
-                rel("pure(kernel object)", fp_same, torch.zeros(1), nontrivial=False)
-                if d1:  # the relations below - and the remaining geometries, which share this kernel object - would only repeat the corruption
-                    break
-                if use_ad:
-                    # active_dims reads back as given (order included), wherever the zoo entry puts it
-                    def readback():
-                        bufs = [m.active_dims for m in k.modules() if getattr(m, "active_dims", None) is not None]
-                        return torch.stack([b.double() for b in bufs]) if bufs else torch.zeros(0)
-                    rel("active_dims-readback", readback, torch.tensor(ad, dtype=torch.float64).expand(len([m for m in k.modules() if getattr(m, "active_dims", None) is not None]), len(ad)))
-                    k2 = kz.twin(z, PB, sd, k)
-                    A = torch.tensor(ad)
-                    rel("active_dims-twin", lazy(lambda: k2(x1[..., A], x2[..., A])), E)
+                    def rel(name, fn, want, nontrivial=True):
+                        r = dict(key=["zoo", z.name, [list(x) for x in pat], use_ad, gk_, name], ok=True, nontrivial=nontrivial)
+                        okf, got = core.guarded(fn)
+                        # a relation that fails for the plain RBF kernel on the same pattern and geometry is not specific to this kernel; one that
+                        # holds for this kernel on generic data and fails on a geometry is decided by the special rows
+                        cell = "C06/zoo/%s/%s" % (name, "any-kernel" if name in generic_fail(pat, use_ad, item["seed"], geo, env) else z.name)
+                        if geo and geos[0] is None and name not in fail0:
+                            cell += "/special-rows"
+                        # ... and one that holds in the environment the kernel was built in (same pattern, same rows) and fails in this one is
+                        # decided by the mode / the settings
+                        if env and (repr(geo), name) not in faildef:
+                            cell += "/env:" + env_name(env)
+                        if not okf:
+                            r.update(ok=False, sig=cell, detail="%s [%s]: %s raised %s" % (desc, bp, name, got))
+                        else:
+                            okc, kind, msg = compare(torch, got, want, exact=False, tol=TOL_CUSP if (geo and z.cusp) else TOL)
+                            if not okc:
+                                r.update(ok=False, sig=cell, detail="%s [%s]: %s (%s): %s" % (desc, bp, name, kind, msg))
+                        if not r["ok"]:
+                            r["case"] = dict(kind="zoo", kernel=z.name, pats=[[list(x) for x in pat]], geos=[None, geo] if geo else [None], envs=[env] if env else [], seed=item["seed"])
+                            if not geo and not env:
+                                fail0.add(name)
+                            if not env:
+                                faildef.add((repr(geo), name))
+                        elif name == "lazy-vs-eager" and not use_ad:
+                            r["sample"] = dict(case=desc, relation=name)
+                        out.append(r)
+
+                    def lazy(f):
+                        def g():
+                            with gpytorch.settings.lazily_evaluate_kernels(True):
+                                return dense_of(f())
+                        return g
+                    rel("lazy-vs-eager", lazy(lambda: k(x1, x2)), E)
+                    rel("lazy-shape", lambda: torch.zeros(lazy_shape(k, x1, x2)), torch.zeros(E.shape), nontrivial=bool(B))
+                    with gpytorch.settings.lazily_evaluate_kernels(False):
+                        ok21, E21 = core.guarded(lambda: dense_of(k(x2, x1)))
+                    if not ok21:
+                        out.append(dict(key=["zoo", z.name, pat, use_ad, gk_, "swap-not-evaluable"], ok=True, nontrivial=False,
+                                        skipped="%s: eager evaluation of kernel(x2, x1) raises (%s) although kernel(x1, x2) works: transposition not decided" % (desc, E21)))
+                    elif z.sym:
+                        rel("transpose", lambda: E21.mT, E)
+                        rel("lazy-mT", lazy(lambda: k(x1, x2).mT), E.mT)
+                    if z.diag:
+                        dref = Exx.diagonal(dim1=-1, dim2=-2)
+                        for lz in (True, False):
+                            def dg(lz=lz):
+                                with gpytorch.settings.lazily_evaluate_kernels(lz):
+                                    return dense_of(k(x1, x1, diag=True))
+                            rel("diag=True" if lz else "diag=True(eager)", dg, dref)
+
+                        def kd():
+                            with gpytorch.settings.lazily_evaluate_kernels(True):
+                                return k(x1, x1).diagonal()
+                        rel("K.diagonal()", kd, dref)
+                    if z.stack:
+                        xs = torch.cat([x1.expand(*B, n1, x1.shape[-1]), x2.expand(*B, n2, x2.shape[-1])], -2)
+                        for lz in (True, False):
+                            def st(lz=lz):
+                                with gpytorch.settings.lazily_evaluate_kernels(lz):
+                                    S = k(xs, xs)
+                                    return dense_of(S[..., : n1 * t, n1 * t:]) if lz else dense_of(S)[..., : n1 * t, n1 * t:]
+                            rel("stacked-block" if lz else "stacked-block(eager)", st, E)
+                        if z.diag and geo:
+                            # every row of the geometry on one diagonal
+                            with gpytorch.settings.lazily_evaluate_kernels(False):
+                                okS, Ess = core.guarded(lambda: dense_of(k(xs, xs)))
+                            if okS:
+                                for lz in (True, False):
+                                    def dgs(lz=lz):
+                                        with gpytorch.settings.lazily_evaluate_kernels(lz):
+                                            return dense_of(k(xs, xs, diag=True))
+                                    rel("diag=True(stacked)" if lz else "diag=True(stacked,eager)", dgs, Ess.diagonal(dim1=-1, dim2=-2))
+
+                                def kds():
+                                    with gpytorch.settings.lazily_evaluate_kernels(True):
+                                        return k(xs, xs).diagonal()
+                                rel("K.diagonal()(stacked)", kds, Ess.diagonal(dim1=-1, dim2=-2))
+                    # slices WITHOUT an explicit stop on the other axis (the default stop is the size of that axis)
+                    rel("lazy-rows", lazy(lambda: k(x1, x2)[..., 0:t, :]), E[..., 0:t, :])
+                    rel("lazy-cols", lazy(lambda: k(x1, x2)[..., :, t:]), E[..., :, t:])
+                    # derived objects that own a NEW kernel object: a batch index on the lazy tensor, kernel[i]; the value of K[i] is judged
+                    # where the parameter batch is aligned with the output batch (the unaligned forms are classes of LazyKernel.tla)
+                    if B:
+                        with gpytorch.settings.lazily_evaluate_kernels(True):
+                            Kb = k(x1, x2)  # created before the derivation, evaluated after it
+                        if len(PB) in (0, len(B)):
+                            rel("lazy-batch-int", lazy(lambda: Kb[B[0] - 1]), E[B[0] - 1])
+                            rel("lazy-batch-tensor", lazy(lambda: Kb[torch.tensor([B[0] - 1, 0])]), E[torch.tensor([B[0] - 1, 0])])
+                        else:
+                            core.guarded(lambda: Kb[B[0] - 1])
+                        if PB:
+                            core.guarded(lambda: k[PB[0] - 1])
+                            core.guarded(lambda: k.expand_batch(torch.Size((2,) + PB)))
+                        rel("pure(K.to_dense() after K[i])", lambda: dense_of(Kb), E)
+                        if len(PB) in (0, len(B)):
+                            rel("pure(K[0] after K[i])", lazy(lambda: Kb[0]), E[0])
+                    # ... and after everything above (lazy tensors, transposes, diagonals, slices, batch indices): the kernel object is what
+                    # it was and evaluates to the same matrix
+                    def again():
+                        with gpytorch.settings.lazily_evaluate_kernels(False):
+                            return dense_of(k(x1, x2))
+                    rel("pure(kernel(x1,x2) again)", again, E)
+                    d1 = cp.fp_diff(torch, fp0, cp.fingerprint(torch, k))
+
+                    def fp_same():
+                        if d1:
+                            raise RuntimeError("the kernel object changed: " + d1)
+                        return torch.zeros(1)
+                    rel("pure(kernel object)", fp_same, torch.zeros(1), nontrivial=False)
+                    if d1:  # the relations below - and the remaining geometries, which share this kernel object - would only repeat the corruption
+                        break
+                    if use_ad:
+                        # active_dims reads back as given (order included), wherever the zoo entry puts it
+                        def readback():
+                            bufs = [m.active_dims for m in k.modules() if getattr(m, "active_dims", None) is not None]
+                            return torch.stack([b.double() for b in bufs]) if bufs else torch.zeros(0)
+                        rel("active_dims-readback", readback, torch.tensor(ad, dtype=torch.float64).expand(len([m for m in k.modules() if getattr(m, "active_dims", None) is not None]), len(ad)))
+                        k2 = kz.twin(z, PB, sd, k)
+                        A = torch.tensor(ad)
+                        rel("active_dims-twin", lazy(lambda: k2(x1[..., A], x2[..., A])), E)
     return out
 
 
 _GEN = {}
 
 
-def generic_fail(pat, use_ad, seed, geo=None):
-    """names of the zoo relations that fail for the reference kernel (RBF) on this pattern (and geometry)"""
-    key = (repr(pat), use_ad, seed, repr(geo))
+def generic_fail(pat, use_ad, seed, geo=None, env=None):
+    """names of the zoo relations that fail for the reference kernel (RBF) on this pattern (and geometry, and environment)"""
+    if env and tuple(env) == ENV_DEFAULT:
+        env = None  # (the environment the reference kernel is built in)
+    key = (repr(pat), use_ad, seed, repr(geo), repr(env))
     if key not in _GEN:
         _GEN[key] = set()  # (set before the recursive call: the reference run itself sees an empty set)
-        res = _zoo_worker(dict(kernel="RBF", pats=[pat], geos=[geo], seed=seed, only_ad=use_ad))
-        _GEN[key] = {r["key"][-1] for r in res if not r.get("ok", True)}
+        res = _zoo_worker(dict(kernel="RBF", pats=[pat], geos=[geo], envs=[env] if env else [], seed=seed, only_ad=use_ad))
+        _GEN[key] = {r["key"][-1] for r in res if not r.get("ok", True) and (not env or "env:" + env_name(env) in r["key"][-2])}
     return _GEN[key]
 
 
@@ -1052,7 +1197,8 @@ def run(ck):
                "(exact) and on zoo kernels (1e-10, rows = the points of DataGeo: origin, unit, rows shared by x1 and x2); plus (broadcast pattern x data geometry x "
                "relation) of the geo runs on the stub (exact; equal points = equal labels); plus zoo kernel x broadcast pattern x geometry (generic random rows "
                "and every TLC-enumerated geometry: origin / unit / lattice rows, coincident rows, rows shared by x1 and x2, realised per kernel) x relation "
-               "(lazy-vs-eager, transpose, diag, diag of the stacked input, stacked block, active_dims twin, batch index, purity of the kernel object); plus every KernelPure.tla history evaluate -> derive -> evaluate the ORIGINAL "
+               "(lazy-vs-eager, transpose, diag, diag of the stacked input, stacked block, active_dims twin, batch index, purity of the kernel object), and on the aligned patterns x "
+               "{generic rows, first geometry} x every TLC-enumerated environment (train / eval mode, sgpr_diagonal_correction, use_toeplitz: a pairwise covering family) again every relation; plus every KernelPure.tla history evaluate -> derive -> evaluate the ORIGINAL "
                "again (structures plain / Scale / Additive / Product / nested, label and real compositions) and diag-layout case (n, d, order) decoded "
                "on the ARD derivative kernels.  non-trivial = valid operation whose result is non-empty and differs from the untouched tensor (index selects a "
                "proper subset or reshapes); distinct = distinct (configuration, operation, kernel)")
@@ -1062,6 +1208,11 @@ def run(ck):
                       "last_dim_is_batch (deprecated) is not exercised; KeOps / CUDA kernels are outside the domain",
                       "a (kernel, pattern) whose EAGER dense evaluation itself raises is outside the kernel's domain and is skipped (batch-mode support is C08's question)",
                       "diag=True is compared only for x1 == x2 (its documented precondition)",
+                      "a relation is stated between two readings under the SAME environment (mode of the kernel object, sgpr_diagonal_correction, use_toeplitz, both set before either side is "
+                      "evaluated); a lazy tensor created under one environment and evaluated under another is not decided; the environments of the zoo are a family containing every pair of "
+                      "setting values (not every triple) on the aligned broadcast patterns",
+                      "the diagonal class of a zoo kernel (varying / constant over the points) is declared in c06_kernels.STRUCT and probed on generic unbatched data (the SGPR kernel with the "
+                      "diagonal correction off); multi-output x SGPR compositions are not in the zoo (their sub-block cells would repeat the known InducingPoint finding under new names)",
                       "zoo relations of the Matern-1/2 kernel (not differentiable at distance 0) on geometries are compared to 1e-6: between two rows that are the same point the rounding error "
                       "of the squared distance enters with its square root (1e-8 / lengthscale) and differs between two calls",
                       "the Hamming kernel is defined on one-hot rows: its origin is realised as the first word of the vocabulary (on an all-zero row k(x, x) depends on torch.equal(x1, x2), outside the domain); "
@@ -1116,7 +1267,7 @@ def run(ck):
             raise tlc.TLCError("TLC failed on %s:\n%s" % (r["name"], res.stdout[-1500:]))
     t1 = os.times()
     ck.extra["cpu_seconds"] = dict(tlc=round(t1.children_user + t1.children_system - t0.children_user - t0.children_system, 1))
-    items, patterns, geopairs = [], [], []
+    items, patterns, geopairs, envs_of = [], [], [], {}
     for i, (r, res) in enumerate(zip(P, results)):
         with open(res.dump_path) as f:
             text = f.read()
@@ -1132,6 +1283,8 @@ def run(ck):
             for _, st in tlaval.parse_dump(text):
                 if not st["hist"]:
                     geopairs.append((to_py(st["pat"]), to_py(st["geo"])))
+                    if r["name"] == "geo" and to_py(st["env"]) not in envs_of.setdefault(repr(to_py(st["pat"])), []):
+                        envs_of[repr(to_py(st["pat"]))].append(to_py(st["env"]))
             ck.section("geometry", pattern_geometry_pairs=sum(1 for _, st in tlaval.parse_dump(text) if not st["hist"]), geometries=len(r["geos"]))
         if len(hdrs) <= (ninit if r["jobs"] is None else len(r["jobs"]) * len(r["chunks"]) * max(1, len(r["geos"]) if r["geos"] != "all" else 1)):
             ck.vacuous("TLC run %s generated no case" % r["name"])
@@ -1239,7 +1392,8 @@ def run(ck):
                 raise core.Machinery("the geo run enumerated %d geometries for the pattern %s, the covering family has %d" % (len(geos_of.get(repr(pt), [])), pt, len(GEOS_COVER)))
     for nm in names:
         for i in range(0, len(patterns), 4):
-            zitems.append(dict(kernel=nm, pats=patterns[i:i + 4], geos_by_pat=[[None] + geos_of.get(repr(pt), []) for pt in patterns[i:i + 4]], seed=ck.seed, probe=True))
+            zitems.append(dict(kernel=nm, pats=patterns[i:i + 4], geos_by_pat=[[None] + geos_of.get(repr(pt), []) for pt in patterns[i:i + 4]],
+                               envs_by_pat=[envs_of.get(repr(pt), []) for pt in patterns[i:i + 4]], seed=ck.seed, probe=True))
     zres = core.pmap(_zoo_worker, zitems, chunksize=1)
     skipped = [r.pop("skipped") for r in zres if r.get("skipped")]
     ck.extra["not_evaluable"] = dict(count=len(skipped), examples=skipped[:8])
@@ -1253,7 +1407,12 @@ def run(ck):
             first.append(r)
     ids = {id(r) for r in first}
     ck.absorb(first + [r for r in allr if id(r) not in ids])
-    ck.section("zoo", kernels=len(names), patterns=len(patterns), geometries=1 + max([len(v) for v in geos_of.values()] or [0]), relations=len(zres))
+    nenv = sum(1 for r in zres if any(isinstance(x, str) and x.startswith("env:") for x in (r["key"][-2] if isinstance(r["key"][-2], list) else [])))
+    envs_seen = {x for r in zres if isinstance(r["key"][-2], list) for x in r["key"][-2] if isinstance(x, str) and x.startswith("env:")}
+    if not only and (len(envs_seen) < len(ENVS_COVER) - 1 or not any(len(v) >= len(ENVS_COVER) for v in envs_of.values())):
+        ck.vacuous("the zoo relations were evaluated under %d non-default environments only (the covering family has %d)" % (len(envs_seen), len(ENVS_COVER) - 1))
+    ck.section("zoo", kernels=len(names), patterns=len(patterns), geometries=1 + max([len(v) for v in geos_of.values()] or [0]), relations=len(zres),
+               environments=1 + len(envs_seen), relations_under_non_default_environment=nenv, patterns_with_environments=sum(1 for v in envs_of.values() if len(v) > 1))
     if os.environ.get("VERIF_C06_DUMPFAIL"):  # development: every failing cell with its detail
         import json
         with open(os.environ["VERIF_C06_DUMPFAIL"], "w") as f:
@@ -1276,11 +1435,11 @@ def replay(rep):
         res = cp.replay_case(case)
         res = [r for r in res if r.get("sig") == rep["signature"]] or res
     elif case["kind"] == "zoo":
-        res = _zoo_worker(dict(kernel=case["kernel"], pats=case["pats"], geos=case.get("geos") or [None], seed=case.get("seed", rep.get("seed", 0))))
+        res = _zoo_worker(dict(kernel=case["kernel"], pats=case["pats"], geos=case.get("geos") or [None], envs=case.get("envs") or [], seed=case.get("seed", rep.get("seed", 0))))
         res = [r for r in res if r.get("sig") == rep["signature"]] or res
     else:
         names = ["stub"] + ([case["kernel"]] if case["kernel"] != "stub" else [])  # the stub decides the '/only:<kernel>' suffix
-        res = [r for r in replay_state(torch, case["cfg"], case["pat"], case["hist"], names, True, case.get("fam"), case.get("geo")) if r.get("machinery") or r["key"][-1] == case["kernel"] or r["key"][-2:] == [case["kernel"], "pure"]]
+        res = [r for r in replay_state(torch, case["cfg"], case["pat"], case["hist"], names, True, case.get("fam"), case.get("geo"), env=case.get("env")) if r.get("machinery") or r["key"][-1] == case["kernel"] or r["key"][-2:] == [case["kernel"], "pure"]]
     rc = 0
     for r in res:
         if r.get("machinery"):
